@@ -20,7 +20,7 @@ META = {
                    "subdomain_pair_to_interface/subdomain_to_boundary_grid under enumerated operation histories "
                    "with symbolic (distinct) grid ids",
     "assumptions": ["grids and mortar grids are the real objects of a 2-fracture Cartesian md-grid (dims 2,1,1,0; "
-                    "4 interfaces); their ids are replaced by distinct symbolic integers",
+                    "4 interfaces plus one co-dimension-2 coupling between the matrix and the intersection point); their ids are replaced by distinct symbolic integers",
                     "histories of length <= 5 (quick: sampled) over add-subdomain / add-interface / remove / replace"],
     "stubs": ["Grid.id / MortarGrid.id / BoundaryGrid.id hold symbolic integers (attribute assignment)"],
     "outside": ["3-d subdomains", "replacement of a subdomain that has interfaces attached (re-matching of mortar "
@@ -40,7 +40,20 @@ def _base():
     intfs = mdg.interfaces()
     pairs = [mdg.interface_to_subdomain_pair(i) for i in intfs]
     maps = [mdg.interface_data(i)["face_cells"] for i in intfs]
-    _BASE.update(sds=sds, intfs=intfs, pairs=[(sds.index(a), sds.index(b)) for a, b in pairs], maps=maps)
+    pairs = [(sds.index(a), sds.index(b)) for a, b in pairs]
+    # a co-dimension-2 coupling (matrix -- intersection point), as add_interface allows: a 0-d mortar grid
+    # (copy of an existing one) between the 2-d grid and the 0-d grid
+    import copy as _copy
+
+    import scipy.sparse as sps_
+
+    i2 = [k for k, g in enumerate(sds) if g.dim == 2][0]
+    i0 = [k for k, g in enumerate(sds) if g.dim == 0][0]
+    m0 = [m for m in intfs if m.dim == 0][0]
+    intfs = list(intfs) + [_copy.copy(m0)]
+    pairs.append((i2, i0))
+    maps.append(sps_.csc_matrix(([True], ([0], [0])), shape=(sds[i0].num_cells, sds[i2].num_faces)))
+    _BASE.update(sds=sds, intfs=intfs, pairs=pairs, maps=maps)
     return _BASE
 
 
@@ -82,6 +95,12 @@ def shards(tier, seed):
     longer = [h for h in longer if len(h) >= 4]
     rnd.shuffle(longer)
     hs += longer[: (250 if tier == "quick" else 4000)]
+    # always: add both subdomains of every interface, add the interface, remove either side
+    b = _base()
+    for j, (a, c) in enumerate(b["pairs"]):
+        for first, second in ((a, c), (c, a)):
+            for gone in (a, c):
+                hs.append([("as", first), ("as", second), ("ai", j), ("rm", gone)])
     k = 8 if tier == "quick" else 16
     return [{"hists": hs[i::k]} for i in range(k)]
 
